@@ -131,6 +131,42 @@ Proof.
   - injection H as <-. reflexivity.
 Qed.
 
+Lemma undelegate_common_tot : forall cfg st sender id st', undelegate_common cfg st sender id = Ok st' -> tot st' = tot st.
+Proof.
+  intros cfg st sender id st' H. unfold undelegate_common in H.
+  destruct (s_locks st id) as [l|]; [|discriminate]. destruct (negb (l_owner l =? sender)); [discriminate|].
+  destruct (s_conn st id) as [[d v]|]; [|discriminate]. unfold bind in H.
+  match type of H with match ?c with _ => _ end = _ => destruct c as [st2|] eqn:E2; [|discriminate] end.
+  destruct (sf_osmo_tokens cfg st2 d (l_amt l)); [|discriminate].
+  apply force_tot in H. apply delete_synth_tot in E2. rewrite H, E2. reflexivity.
+Qed.
+
+Lemma external_delegate_tot : forall st v x st', external_delegate st v x = Ok st' -> tot st' = tot st.
+Proof.
+  intros st v x st' H. unfold external_delegate in H. destruct (s_vals st v); [|discriminate].
+  destruct (x <? 0); [discriminate|]. destruct (_ && _); [discriminate|]. injection H as <-. reflexivity.
+Qed.
+
+Lemma convert_tot : forall cfg st sender id v x env_ok st', convert cfg st sender id v x env_ok = Ok st' -> tot st' = tot st.
+Proof.
+  intros cfg st sender id v x env_ok st' H. unfold convert, bind in H.
+  destruct (synth_by_lock st id) as [found|]; [|discriminate].
+  match type of H with match ?c with _ => _ end = _ => destruct c as [st1|] eqn:E1; [|discriminate] end.
+  assert (T1 : tot st1 = tot st).
+  { destruct found as [y|]; [destruct (y_kind y)|]; try (injection E1 as <-; reflexivity). eapply undelegate_common_tot; eassumption. }
+  destruct (s_locks st1 id) as [l|]; [|discriminate]. destruct (negb (l_owner l =? sender)); [discriminate|].
+  destruct (negb (existsb _ (c_gamm cfg))); [discriminate|].
+  destruct (synth_by_lock st1 id) as [found1|]; [|discriminate].
+  match type of H with match ?c with _ => _ end = _ => destruct c as [st2|] eqn:E2; [|discriminate] end.
+  assert (T2 : tot st2 = tot st1).
+  { destruct found1 as [y|]; [|injection E2 as <-; reflexivity]. eapply delete_synth_tot; eassumption. }
+  match type of H with match ?c with _ => _ end = _ => destruct c as [st3|] eqn:E3; [|discriminate] end.
+  assert (T3 : tot st3 = tot st2).
+  { destruct (l_end l =? 0); [|injection E3 as <-; reflexivity].
+    destruct (begin_unlock st2 id None) as [[s n]|] eqn:E; [|discriminate]. injection E3 as <-. eapply begin_unlock_tot; eassumption. }
+  destruct (negb env_ok); [discriminate|]. apply external_delegate_tot in H. rewrite H. unfold tot in *. ssimpl. lia.
+Qed.
+
 Theorem step_tot : forall cfg st o st' n, step cfg st o = Ok (st', n) -> tot st' = tot st.
 Proof.
   intros cfg st o st' n H. destruct o; cbn [step] in H; unfold bind in H.
@@ -158,6 +194,7 @@ Proof.
   - dcase H. dcase H. dcase H. eapply begin_unlock_tot; eassumption.
   - dcase H. injection H as <- _. eapply begin_unlock_all_tot; eassumption.
   - dcase H. injection H as <- _. eapply force_unlock_tot; eassumption.
+  - dcase H. injection H as <- _. eapply convert_tot; eassumption.
   - dcase H. unfold unlock_matured_lock in Heqr. dcase Heqr. dcase Heqr. dcase Heqr. injection Heqr as <-. injection H as <- _. reflexivity.
   - dcase H. injection H as <- _. reflexivity.
   - dcase H. injection H as <- _. apply delete_matured_synths_tot in Heqr. assumption.
